@@ -513,10 +513,21 @@ const (
 	KindRenew RenewKind = iota
 	KindRefreshFull
 	KindRefreshPartial
+	KindForm // contract formation (Existing is ignored)
 )
 
 func (k RenewKind) String() string {
-	return [...]string{"renew", "refresh-full", "refresh-partial"}[k]
+	return [...]string{"renew", "refresh-full", "refresh-partial", "form"}[k]
+}
+
+// Funding replaces the renter wallet's input selection by hand-picked
+// elements: Inputs are spent (a change output to the renter address is added
+// exactly as the host computes it), Parents are sent as RenterParents, Basis
+// is the chain index the element proofs are claimed to be valid for.
+type Funding struct {
+	Basis   types.ChainIndex
+	Inputs  []types.SiacoinElement
+	Parents []types.V2Transaction
 }
 
 // RenewCall is one raw renew / refresh exchange, built the way the honest
@@ -532,9 +543,18 @@ type RenewCall struct {
 
 	MutRenew   func(*proto4.RPCRenewContractRequest)
 	MutRefresh func(*proto4.RPCRefreshContractRequest)
+	MutForm    func(*proto4.RPCFormContractRequest)
 	NoRead     bool
-	// Round2 may alter the two renter signatures; send=false aborts.
+	// Funding, if set, is used instead of the renter wallet's own selection.
+	Funding *Funding
+	// BeforeRound2 runs after the host's inputs were read (the host holds the
+	// contract lock and its funded inputs) and before the renter signs.
+	BeforeRound2 func()
+	// Round2 may alter the two renter signatures; send=false aborts. For a
+	// formation only contractSig is used.
 	Round2 func(renewalSig, contractSig *types.Signature) (send bool)
+	// MutPolicies may alter the renter's satisfied policies before they are sent.
+	MutPolicies func([]types.SatisfiedPolicy)
 }
 
 // RenewResult is the outcome of a raw renew / refresh exchange.
@@ -548,6 +568,9 @@ type RenewResult struct {
 	// the request as sent (exactly one is set)
 	RenewReq   *proto4.RPCRenewContractRequest
 	RefreshReq *proto4.RPCRefreshContractRequest
+	FormReq    *proto4.RPCFormContractRequest
+	Contract   types.V2FileContract // formation: the contract as built by the renter
+	Txn        types.V2Transaction  // the transaction as assembled and signed by the renter
 }
 
 // Renew runs a raw renew or refresh exchange. Inputs it funded are released
@@ -558,10 +581,21 @@ func (r *Raw) Renew(cs consensus.State, c RenewCall) (res RenewResult) {
 	hostAddr := r.L.Settings.RHP4Settings().WalletAddress
 	existing := c.Existing.Revision
 	var renewal types.V2FileContractRenewal
+	var fc types.V2FileContract
 	var id types.Specifier
 	var renterCost, hostCost types.Currency
+	var renterAddr, hostChangeAddr types.Address
 	txn := types.V2Transaction{MinerFee: signer.RecommendedFee().Mul64(1000)}
 	switch c.Kind {
+	case KindForm:
+		p := proto4.RPCFormContractParams{RenterPublicKey: r.Key.PublicKey(), RenterAddress: r.L.RenterWallet.Address(), Allowance: c.Allowance, Collateral: c.Collateral, ProofHeight: c.ProofHeight}
+		fc, res.Usage = proto4.NewContract(c.Prices, p, r.L.HostKey.PublicKey(), hostAddr)
+		txn.FileContracts = []types.V2FileContract{fc}
+		renterCost, _ = proto4.ContractCost(cs, fc, txn.MinerFee)
+		hostCost = fc.TotalCollateral
+		id = proto4.RPCFormContractID
+		res.FormReq = &proto4.RPCFormContractRequest{Prices: c.Prices, Contract: p, MinerFee: txn.MinerFee}
+		renterAddr, hostChangeAddr = p.RenterAddress, fc.HostOutput.Address
 	case KindRenew:
 		p := proto4.RPCRenewContractParams{ContractID: c.Existing.ID, Allowance: c.Allowance, Collateral: c.Collateral, ProofHeight: c.ProofHeight}
 		renewal, res.Usage = proto4.RenewContract(existing, c.Prices, hostAddr, p)
@@ -580,31 +614,67 @@ func (r *Raw) Renew(cs consensus.State, c RenewCall) (res RenewResult) {
 		renterCost, hostCost = proto4.RefreshCost(cs, c.Prices, renewal, txn.MinerFee)
 		res.RefreshReq = &proto4.RPCRefreshContractRequest{Prices: c.Prices, Refresh: p, MinerFee: txn.MinerFee}
 	}
-	res.NewID = c.Existing.ID.V2RenewalID()
-
-	basis, toSign, err := signer.FundV2Transaction(&txn, renterCost)
-	if err != nil {
-		res.Err = fmt.Errorf("renter cannot fund: %w", err)
-		return
+	if c.Kind != KindForm {
+		res.NewID = c.Existing.ID.V2RenewalID()
+		renterAddr, hostChangeAddr = renewal.NewContract.RenterOutput.Address, renewal.NewContract.HostOutput.Address
 	}
-	release := true
+
+	var basis types.ChainIndex
+	var toSign []int
+	var parents []types.V2Transaction
+	release := false
 	defer func() {
 		if release {
 			signer.ReleaseInputs([]types.V2Transaction{txn})
 		}
 	}()
-	basis, parents, err := r.L.CM.V2TransactionSet(basis, txn)
-	if err != nil {
-		res.Err = fmt.Errorf("renter cannot build parents: %w", err)
-		return
+	if c.Funding != nil {
+		var sum types.Currency
+		for i, el := range c.Funding.Inputs {
+			sum = sum.Add(el.SiacoinOutput.Value)
+			txn.SiacoinInputs = append(txn.SiacoinInputs, types.V2SiacoinInput{Parent: el.Copy()})
+			toSign = append(toSign, i)
+		}
+		if sum.Cmp(renterCost) > 0 {
+			// the host adds exactly this change output for a renter that overpays
+			txn.SiacoinOutputs = append(txn.SiacoinOutputs, types.SiacoinOutput{Address: renterAddr, Value: sum.Sub(renterCost)})
+		} else if sum.Cmp(renterCost) < 0 {
+			res.Err = fmt.Errorf("hand-picked inputs (%v) do not cover the renter's cost (%v)", sum, renterCost)
+			return
+		}
+		basis, parents = c.Funding.Basis, c.Funding.Parents
+	} else {
+		var err error
+		basis, toSign, err = signer.FundV2Transaction(&txn, renterCost)
+		if err != nil {
+			res.Err = fmt.Errorf("renter cannot fund: %w", err)
+			return
+		}
+		release = true
+		basis, parents, err = r.L.CM.V2TransactionSet(basis, txn)
+		if err != nil {
+			res.Err = fmt.Errorf("renter cannot build parents: %w", err)
+			return
+		}
+		if c.Kind == KindForm {
+			txn = parents[len(parents)-1]
+		}
+		parents = parents[:len(parents)-1]
 	}
 	var inputs []types.SiacoinElement
 	for _, si := range txn.SiacoinInputs {
 		inputs = append(inputs, si.Parent.Copy())
 	}
-	parents = parents[:len(parents)-1]
 	var reqObj proto4.Object
-	if res.RenewReq != nil {
+	switch {
+	case res.FormReq != nil:
+		q := res.FormReq
+		q.Basis, q.RenterInputs, q.RenterParents = basis, inputs, parents
+		if c.MutForm != nil {
+			c.MutForm(q)
+		}
+		reqObj = q
+	case res.RenewReq != nil:
 		q := res.RenewReq
 		q.Basis, q.RenterInputs, q.RenterParents = basis, inputs, parents
 		q.ChallengeSignature = r.Key.SignHash(q.ChallengeSigHash(existing.RevisionNumber))
@@ -612,7 +682,7 @@ func (r *Raw) Renew(cs consensus.State, c RenewCall) (res RenewResult) {
 			c.MutRenew(q)
 		}
 		reqObj = q
-	} else {
+	default:
 		q := res.RefreshReq
 		q.Basis, q.RenterInputs, q.RenterParents = basis, inputs, parents
 		q.ChallengeSignature = r.Key.SignHash(q.ChallengeSigHash(existing.RevisionNumber))
@@ -637,7 +707,13 @@ func (r *Raw) Renew(cs consensus.State, c RenewCall) (res RenewResult) {
 		return
 	}
 	var hostInputs []types.V2SiacoinInput
-	if res.RenewReq != nil {
+	if res.FormReq != nil {
+		var resp proto4.RPCFormContractResponse
+		if res.Err = proto4.ReadResponse(s, &resp); res.Err != nil {
+			return
+		}
+		hostInputs = resp.HostInputs
+	} else if res.RenewReq != nil {
 		var resp proto4.RPCRenewContractResponse
 		if res.Err = proto4.ReadResponse(s, &resp); res.Err != nil {
 			return
@@ -660,17 +736,29 @@ func (r *Raw) Renew(cs consensus.State, c RenewCall) (res RenewResult) {
 		res.Err = fmt.Errorf("host funded %v, expected %v", hostSum, hostCost)
 		return
 	} else if n > 0 {
-		txn.SiacoinOutputs = append(txn.SiacoinOutputs, types.SiacoinOutput{Address: renewal.NewContract.HostOutput.Address, Value: hostSum.Sub(hostCost)})
+		txn.SiacoinOutputs = append(txn.SiacoinOutputs, types.SiacoinOutput{Address: hostChangeAddr, Value: hostSum.Sub(hostCost)})
 	}
-	txn.FileContractResolutions = []types.V2FileContractResolution{{
-		Parent:     types.V2FileContractElement{ID: c.Existing.ID},
-		Resolution: &renewal,
-	}}
-	signer.SignV2Inputs(&txn, toSign)
-	renewal.RenterSignature = r.Key.SignHash(cs.RenewalSigHash(renewal))
-	renewal.NewContract.RenterSignature = r.Key.SignHash(cs.ContractSigHash(renewal.NewContract))
-	res.Renewal = renewal
-	rs, csig := renewal.RenterSignature, renewal.NewContract.RenterSignature
+	if c.BeforeRound2 != nil {
+		c.BeforeRound2()
+	}
+	var rs, csig types.Signature
+	if c.Kind == KindForm {
+		signer.SignV2Inputs(&txn, toSign)
+		fc.RenterSignature = r.Key.SignHash(cs.ContractSigHash(fc))
+		res.Contract = fc
+		csig = fc.RenterSignature
+	} else {
+		txn.FileContractResolutions = []types.V2FileContractResolution{{
+			Parent:     types.V2FileContractElement{ID: c.Existing.ID},
+			Resolution: &renewal,
+		}}
+		signer.SignV2Inputs(&txn, toSign)
+		renewal.RenterSignature = r.Key.SignHash(cs.RenewalSigHash(renewal))
+		renewal.NewContract.RenterSignature = r.Key.SignHash(cs.ContractSigHash(renewal.NewContract))
+		res.Renewal = renewal
+		rs, csig = renewal.RenterSignature, renewal.NewContract.RenterSignature
+	}
+	res.Txn = txn
 	if c.Round2 != nil && !c.Round2(&rs, &csig) {
 		res.Err = errAborted
 		return
@@ -679,23 +767,40 @@ func (r *Raw) Renew(cs consensus.State, c RenewCall) (res RenewResult) {
 	for _, si := range txn.SiacoinInputs[:len(inputs)] {
 		policies = append(policies, si.SatisfiedPolicy)
 	}
+	if c.MutPolicies != nil {
+		c.MutPolicies(policies)
+	}
 	var second proto4.Object
-	if res.RenewReq != nil {
+	switch {
+	case res.FormReq != nil:
+		second = &proto4.RPCFormContractSecondResponse{RenterContractSignature: csig, RenterSatisfiedPolicies: policies}
+	case res.RenewReq != nil:
 		second = &proto4.RPCRenewContractSecondResponse{RenterRenewalSignature: rs, RenterContractSignature: csig, RenterSatisfiedPolicies: policies}
-	} else {
+	default:
 		second = &proto4.RPCRefreshContractSecondResponse{RenterRenewalSignature: rs, RenterContractSignature: csig, RenterSatisfiedPolicies: policies}
 	}
 	if res.Err = proto4.WriteResponse(s, second); res.Err != nil {
 		return
 	}
 	res.Stage = StageRound2
-	if res.RenewReq != nil {
+	switch {
+	case res.FormReq != nil:
+		var third proto4.RPCFormContractThirdResponse
+		if res.Err = proto4.ReadResponse(s, &third); res.Err != nil {
+			return
+		}
+		res.Set = rhp.TransactionSet{Basis: third.Basis, Transactions: third.TransactionSet}
+		if n := len(third.TransactionSet); n > 0 {
+			ft := third.TransactionSet[n-1]
+			res.NewID = ft.V2FileContractID(ft.ID(), 0)
+		}
+	case res.RenewReq != nil:
 		var third proto4.RPCRenewContractThirdResponse
 		if res.Err = proto4.ReadResponse(s, &third); res.Err != nil {
 			return
 		}
 		res.Set = rhp.TransactionSet{Basis: third.Basis, Transactions: third.TransactionSet}
-	} else {
+	default:
 		var third proto4.RPCRefreshContractThirdResponse
 		if res.Err = proto4.ReadResponse(s, &third); res.Err != nil {
 			return
